@@ -590,6 +590,83 @@ def expfield_group():
     return obs, {"paths": 6}
 
 
+def unfloat_group():
+    """the writer of the same fields: the real `_unfloat` runs on a stand-in for a non-zero float v = +-m x 10^x (1 <= m < 10)
+    whose `format(v, ".4e")` is the decimal rounding of v to five significant digits -- a text with placeholder digits, the
+    sign and the exponent concrete per shape (2 signs x exponents -10..8 x {no carry, mantissa rounds up to 10.0000}); what it
+    returns is then read by the real `_float`: the field fits its 8 columns and reads back within half a unit of the fifth
+    digit of v.  Modelled: the decimal rounding of float formatting (exact ties either way); binary64 is outside"""
+    tle = importlib.import_module(TLE)
+    D = [z3.Int(f"D{i}") for i in range(5)]
+    m = z3.Real("m")
+    k = sum(D[i] * 10 ** (4 - i) for i in range(5))
+    rng = [z3.And(x >= 0, x <= 9) for x in D] + [D[0] >= 1, m >= 1, m < 10]
+
+    class SymFloat:
+        def __init__(self, neg, x):
+            self.neg, self.x, self.specs = neg, x, []
+
+        def __eq__(self, o):
+            return False                       # a non-zero value (zero is written as a constant)
+
+        def __format__(self, spec):
+            self.specs.append(spec)
+            return ("-" if self.neg else "") + _PH[0] + "." + "".join(_PH[1:5]) + "e%+03d" % self.x
+
+    def reader(txt):
+        mt = re.fullmatch(r"([+-]?)\.([%s]+)e([+-]?)(\d+)" % "".join(_PH[:5]), txt)
+        if not mt:
+            raise ValueError(f"could not convert string to float: {txt!r}")
+        sg, digs, esg, ex = mt.groups()
+        val_ = sum(z3.ToReal(D[_PH.index(ch)]) / 10 ** (j + 1) for j, ch in enumerate(digs))
+        e = int(ex)
+        val_ = val_ * (z3.Q(1, 10 ** e) if esg == "-" else z3.RealVal(10 ** e))
+        return -val_ if sg == "-" else val_
+    obs = []
+    saved = tle.__dict__.get("float")
+    try:
+        tle.float = reader
+        for neg in (False, True):
+            for carry in (0, 1):
+                for x in range(-10, 9 - carry):
+                    name = f"unfloat/{'m' if neg else 'p'}{'c' if carry else ''}/e{x:+d}"
+                    s = z3.Solver()
+                    s.add(*rng)
+                    if carry:
+                        s.add(m * 10000 >= z3.Q(199999, 2), k == 10000)
+                    else:
+                        s.add(2 * (m * 10000 - z3.ToReal(k)) <= 1, 2 * (m * 10000 - z3.ToReal(k)) >= -1)
+                    scale = z3.Q(1, 10 ** -x) if x < 0 else z3.RealVal(10 ** x)
+                    v = (-m if neg else m) * scale
+                    half = scale / 20000
+                    sf = SymFloat(neg, x + carry)
+                    err = None
+                    try:
+                        text = tle._unfloat(sf)
+                        got = tle._float(text)
+                        s.add(z3.Or(got - v > half, v - got > half, z3.BoolVal(len(text) > 8), z3.BoolVal(sf.specs != [".4e"])))
+                    except Exception as e:  # noqa
+                        err = f"{type(e).__name__}: {e}"
+                    obs.append(dict(name=name, smt2=s.sexpr(), trivial=False, expect="unsat", vars=[f"D{i}" for i in range(5)] + ["m"],
+                                    timeout=30, solver="z3",
+                                    desc=f"_unfloat of a {'negative' if neg else 'positive'} value m x 10^{x} (1 <= m < 10"
+                                         + (", m rounding up to 10.0000" if carry else "") + "): at most 8 columns, and read back by _float "
+                                         "within half a unit of the fifth significant digit" + (f" -- the real code raised {err}" if err else ""),
+                                    replay={"kind": "unfloat", "neg": neg, "x": x, "carry": carry}, n_constraints=len(s.assertions()),
+                                    tags=["numeric"]))
+    finally:
+        if saved is None:
+            del tle.float
+        else:
+            tle.float = saved
+    tw = z3.Solver()
+    tw.add(*rng)
+    tw.add(2 * (m * 10000 - z3.ToReal(k)) <= 1, 2 * (m * 10000 - z3.ToReal(k)) >= -1)
+    obs.append(dict(name="unfloat/twin", smt2=tw.sexpr(), trivial=False, expect="sat", vars=[], timeout=10, solver="z3", desc="twin",
+                    replay=None, n_constraints=len(rng) + 2, tags=["twin"]))
+    return obs, {"paths": 2 * (19 + 18)}
+
+
 def pivot_group():
     """the two-digit years of a TLE (epoch, international designator): the expression `year += A if <test> else B` of
     Tle.__init__ is translated from the AST and compared, for every yy in 0..99, with the format's rule 57..99 -> 19yy,
@@ -643,7 +720,7 @@ def _with_checksum(line68):
 
 def groups(tier):
     g = {"layout": layout_group, "checksum": checksum_group, "corruption": corruption_group, "pivot": pivot_group, "numeric": numeric_group,
-         "expfield": expfield_group}
+         "expfield": expfield_group, "unfloat": unfloat_group}
     for l1, l2 in ((69, 69), (68, 69), (70, 69), (69, 68), (69, 70)):
         g[f"validity{l1}x{l2}"] = validity_group(l1, l2)
     for n in range(1, bounds(tier)["from_string_lines"] + 1):
@@ -720,6 +797,21 @@ def replay(ob, model):
         except Exception as e:  # noqa
             bad, detail = True, f"_float({text!r}) raises {type(e).__name__}: {e}"
         return {"reproduced": bool(bad), "signature": "TLE decimal-point-assumed field", "detail": detail, "inputs": {"field": text}}
+    if kind == "unfloat":
+        from fractions import Fraction
+        from beyond.io.tle import _float, _unfloat
+        mv = model.get("m", 1)
+        mval = Fraction(*mv) if isinstance(mv, list) else Fraction(mv)
+        x = rp["x"]
+        val_ = float((-mval if rp["neg"] else mval) * Fraction(10) ** x)
+        try:
+            text = _unfloat(val_)
+            back = _float(text)
+            bad = len(text) > 8 or abs(back - val_) > 0.5001 * 10.0 ** (x - 4)
+            detail = f"_unfloat({val_!r}) = {text!r}, read back as {back!r}"
+        except Exception as e:  # noqa
+            bad, detail = True, f"_unfloat/_float({val_!r}) raises {type(e).__name__}: {e}"
+        return {"reproduced": bool(bad), "signature": "TLE decimal-point-assumed field (writer)", "detail": detail, "inputs": {"value": val_}}
     if kind == "pivot":
         which = rp.get("which")
         if which == "missing":
